@@ -73,6 +73,15 @@ pub(crate) struct FlushWorker<T: Types> {
     /// `Relaxed` is sufficient because the actual data synchronization is
     /// provided by the `RwLock` on `PayloadCache`.
     done_seq: Arc<AtomicU64>,
+
+    /// Whether the most recent sync of the files succeeded.
+    ///
+    /// Purged chunk files may be removed only if it did: otherwise the purge
+    /// record that makes them obsolete is not known to be on disk.
+    last_sync_ok: bool,
+
+    /// Chunk files whose removal is postponed until a sync succeeds.
+    pending_removals: Vec<String>,
 }
 
 impl<T: Types> FlushWorker<T> {
@@ -97,6 +106,8 @@ impl<T: Types> FlushWorker<T> {
             files: vec![file_entry],
             cache,
             done_seq,
+            last_sync_ok: true,
+            pending_removals: Vec::new(),
         }
     }
 
@@ -164,6 +175,7 @@ impl<T: Types> FlushWorker<T> {
                             e
                         );
                     }
+                    self.last_sync_ok = res.is_ok();
                     res
                 } else {
                     Ok(())
@@ -182,6 +194,13 @@ impl<T: Types> FlushWorker<T> {
                         }
                     }
                 }
+            }
+
+            // A successful sync makes everything written so far durable,
+            // including the purge records of postponed removals.
+            if self.last_sync_ok && !self.pending_removals.is_empty() {
+                let chunk_paths = std::mem::take(&mut self.pending_removals);
+                Self::remove_chunks(chunk_paths)?;
             }
 
             // Handle the last non-flush request
@@ -223,13 +242,29 @@ impl<T: Types> FlushWorker<T> {
                 let _ = tx.send(stat);
             }
             WorkerRequest::RemoveChunks { chunk_paths } => {
-                info!("FlushWorker: RemoveChunks: {:?}", chunk_paths);
-                for path in chunk_paths {
-                    std::fs::remove_file(path)?;
+                if self.last_sync_ok {
+                    Self::remove_chunks(chunk_paths)?;
+                } else {
+                    // The flush that carries the purge record failed to sync;
+                    // removing the chunks now could lose logs that are still
+                    // needed after a crash.
+                    info!(
+                        "FlushWorker: postpone RemoveChunks until a sync succeeds: {:?}",
+                        chunk_paths
+                    );
+                    self.pending_removals.extend(chunk_paths);
                 }
             }
         }
 
+        Ok(())
+    }
+
+    fn remove_chunks(chunk_paths: Vec<String>) -> Result<(), io::Error> {
+        info!("FlushWorker: RemoveChunks: {:?}", chunk_paths);
+        for path in chunk_paths {
+            std::fs::remove_file(path)?;
+        }
         Ok(())
     }
 
